@@ -323,12 +323,23 @@ def gen_snippets(rng, per_op, mode='ANN'):
     return out
 
 
-def snippet_traces(rng, per_op, mode, chunk=400):
-    sn = gen_snippets(rng, per_op, mode)
+def value_calls(n, to=NOBODY):
+    c = b''
+    for _ in range(n):
+        c += push(0) + push(0) + push(0) + push(0) + push(1) + push(to) + op('GAS') + op('CALL') + op('POP')
+    return c + op('STOP')
+
+
+def snippet_traces(rng, per_op, mode, chunk=400, via=None, every=1):
+    sn = gen_snippets(rng, per_op, mode)[::every]
+    if via == 'message':
+        # transactions through core.ApplyMessage: value transfers return their unused gas stipend to the caller
+        sn = [('VALUECALLS_%d' % n, value_calls(n, to), b'') for n in (1, 5, 9, 10, 11, 12, 40, 100) for to in (NOBODY, OTHER, SENDER)] + sn
     traces = []
     for i in range(0, len(sn), chunk):
         part = sn[i:i + chunk]
-        traces.append({'id': 'snippets-%s-%d' % (mode, i // chunk), 'cfg': {'kind': 'snippets', 'mode': mode}, 'init': None,
+        traces.append({'id': 'snippets-%s%s-%d' % (mode, '-' + via if via else '', i // chunk),
+                       'cfg': dict({'kind': 'snippets', 'mode': mode}, **({'via': via} if via else {})), 'init': None,
                        'steps': [{'a': 'Snippet', 'args': [c.hex(), d.hex(), l], 'post': {}} for (l, c, d) in part]})
     return traces, len(sn)
 
@@ -391,7 +402,7 @@ def first_diff(a, b):
     return 'equal'
 
 
-def judge_programs(ctx, traces, a, b):
+def judge_programs(ctx, traces, a, b, lookup=None):
     """The three-way comparison model / in-tree / reference for every program (see module docstring)."""
     obs_a, obs_b = a['extra'].get('obs') or {}, b['extra'].get('obs') or {}
     fa = {f['trace_id']: f for f in (a.get('failures') or []) if f.get('trace_id')}
@@ -400,7 +411,10 @@ def judge_programs(ctx, traces, a, b):
           'finding_explained': 0, 'ref_unusable': 0}
     for f in (a.get('failures') or []) + (b.get('failures') or []):
         if f.get('kind') in ('panic', 'error', 'property') and not str(f.get('key', '')).startswith('model:'):
-            t = next((t for t in traces if t['id'] == f.get('trace_id')), None)
+            t = next((t for t in (lookup or traces) if t['id'] == f.get('trace_id')), None)
+            if t is not None and t['cfg']['kind'] == 'snippets':
+                si = f.get('step') or 0
+                t = {'id': '%s-%d' % (t['id'], si), 'cfg': t['cfg'], 'init': None, 'steps': t['steps'][si:si + 1]}
             from_ref = f in (b.get('failures') or [])
             add_failure(ctx, ('reference:' if from_ref else '') + str(f.get('key')), bool(f.get('property')) and not from_ref, f.get('detail', ''),
                         t, f.get('want'), f.get('got'), kind=f.get('kind'))
@@ -493,8 +507,8 @@ def run(ctx, replay=None):
     build(ctx)
     if replay is not None:
         tr = replay['trace']
-        a, b = run_both(ctx, [tr], [tr])
-        if tr['cfg']['kind'] == 'program':
+        a, b = run_both(ctx, [tr], [] if tr['cfg'].get('via') == 'message' else [tr])
+        if tr['cfg']['kind'] == 'program' or tr['cfg'].get('via') == 'message':
             judge_programs(ctx, [tr], a, b)
         else:
             judge_snippets(ctx, [tr], a, b)
@@ -548,6 +562,7 @@ def run(ctx, replay=None):
     rng = random.Random(ctx.seed)
     sn_traces, nsn = snippet_traces(rng, 2 if quick else 12, 'ANN')
     sn_app, nsn2 = snippet_traces(random.Random(ctx.seed + 1000), 1, 'APP')
+    sn_msg, nsn3 = snippet_traces(random.Random(ctx.seed + 2000), 1, 'APP', via='message', every=3 if quick else 1)
     all_traces = traces + sn_traces + sn_app
 
     # binding self-test: corrupted expectations must be rejected by the in-tree driver
@@ -573,9 +588,9 @@ def run(ctx, replay=None):
     if not probes or rejected != len(probes):
         ctx.inconclusive.append('binding self-test: a corrupted expectation was accepted (%d/%d rejected)' % (rejected, len(probes)))
 
-    intree = [t for t in all_traces if t['cfg'].get('mode') != 'REF']
+    intree = [t for t in all_traces if t['cfg'].get('mode') != 'REF'] + sn_msg
     a, b = run_both(ctx, intree, all_traces)
-    st = judge_programs(ctx, traces, a, b)
+    st = judge_programs(ctx, traces, a, b, lookup=all_traces + sn_msg)
     nsnip, sdiff, sexcl, perop = judge_snippets(ctx, sn_traces + sn_app, a, b)
     ctx.log('programs %s; snippets %d compared, %d differ, %d under the 0xfe deviation' % (st, nsnip, sdiff, sexcl))
     nt = sum(1 for t in traces if nontrivial(t['steps'][0]['post']))
@@ -590,7 +605,8 @@ def run(ctx, replay=None):
     ctx.cov['differential_replay'] = {'what': 'generated opcode snippets (model-independent: seeded random + boundary operands, every byte value '
                                               '0x00..0xff, stack under/overflow), in-tree VM vs reference go-ethereum, outcome class / return data / '
                                               'logs / full state dump compared', 'snippets': nsnip, 'differences': sdiff,
-                                      'excluded_documented_0xfe': sexcl, 'opcodes_or_labels': len(perop)}
+                                      'excluded_documented_0xfe': sexcl, 'opcodes_or_labels': len(perop),
+                                      'in_tree_only_through_core_ApplyMessage_vs_EVM_Call': (a.get('counters') or {}).get('apply_message_snippets', 0)}
     ctx.cov['driver_counters_intree'] = a.get('counters', {})
     ctx.cov['driver_counters_reference'] = b.get('counters', {})
     ctx.cov['exhaustive'] = True
